@@ -156,7 +156,7 @@ def run(ctx):
             fi = add_font(data)
             hl.append("F0=%d,%d,%s;Q0;S0=0,-1,-1,0,32,0,-1,000000610000006200000063;D0;d0;X0;T0;L0" % (fi, r.choice([0, 6]), r.choice(["f", "c"])))
             meta.append(("synth", what))
-        impl = lib.run_lines([exe] + fonts, hl, per_chunk=40)
+        impl = lib.run_lines([exe] + fonts, hl, per_chunk=40, env=lib.LEAK_ENV)
         res.harness.append("h_seg load histories (implementation only)")
         res.rules.append("load: %d shipped fonts (incl. the LZ4-compressed one) with 1..6 mutated bytes in any table or the directory, truncation, or a structurally hostile Sill/Feat/Glat/Gloc/name table; synthesised fonts the loader must refuse; x face options {0,1,2,4,6,7,16,31} x {file, callbacks}; every gr_face_/gr_fref_/gr_featureval_ query, one segment, destroy, table traffic balance, leak check" % len(base))
         for l, o, (name, what) in zip(hl, impl, meta):
